@@ -186,9 +186,20 @@ class BV(Bits):
         return self.raw_to_bv()
 
     def identical(self, other: Self) -> bool:
-        with suppress(BackendError):
-            return claripy.backends.vsa.convert(self).identical(claripy.backends.vsa.convert(other))
+        # The value-set comparison is only meaningful for expressions that carry value-set information: without
+        # it every symbolic expression abstracts to TOP, and x + 1 would be "identical" to x + 2.
+        if _has_vsa_info(self) and _has_vsa_info(other):
+            with suppress(BackendError):
+                return claripy.backends.vsa.convert(self).identical(claripy.backends.vsa.convert(other))
         return super().identical(other)
+
+
+def _has_vsa_info(e: BV) -> bool:
+    """Is e concrete, or does one of its variables carry a strided-interval / region annotation?"""
+    if not e.symbolic:
+        return True
+    vsa_annotations = (claripy.annotation.StridedIntervalAnnotation, claripy.annotation.RegionAnnotation)
+    return any(isinstance(a, vsa_annotations) for leaf in e.leaf_asts() for a in leaf.annotations)
 
 
 def BVS(  # pylint:disable=redefined-builtin
